@@ -96,11 +96,11 @@ class Ctx:
         return Trace(os.path.join(self.out, '%s-%d.ndjson' % (label, self.counter)))
 
     # -- model checking --------------------------------------------------
-    def model_check(self, module, cfg=None, workers=8, timeout=900, must_take=(), xmx='8g', coverage=False):
+    def model_check(self, module, cfg=None, workers=8, timeout=900, must_take=(), xmx='8g', coverage=False, subdir='mc'):
         """Exhaustive TLC run of spec/mc/<module>; invariant violation => property violation."""
-        cfgp = os.path.join(VERIF, 'spec', 'mc', (cfg or module) + '.cfg')
+        cfgp = os.path.join(VERIF, 'spec', subdir, (cfg or module) + '.cfg')
         wd = os.path.join(self.out, 'mc-' + (cfg or module))
-        rc, out, wall = tlc.run_tlc(os.path.join('mc', module), cfgp, wd, workers=workers, timeout=timeout,
+        rc, out, wall = tlc.run_tlc(os.path.join(subdir, module), cfgp, wd, workers=workers, timeout=timeout,
                                     extra=(['-coverage', '1'] if coverage or must_take else None), xmx=xmx)
         open(os.path.join(wd, 'tlc.out'), 'w').write(out)
         gen, dist = tlc.parse_stats(out)
